@@ -102,22 +102,40 @@ NA = {}
 
 # additions of the later build rounds: (appended to the technique, appended to the level text)
 EXTRA = {
- "C03": ("; tensor value numbering of join / stack / slice / atom_slice / center_coordinates on model trajectories (sa/tensym.py)",
+ 'C01': ('; rst7 / gro templates folded through locals, LAMMPS write_box / parse_box evaluated as whole functions on a generic triclinic cell',
+         ''),
+ 'C02': ('; cursor update of array-backed readers evaluated as a linear / min form; capacity of every buffer handed to read_xtc / read_trr against the atom count the reader writes (path-compatible reaching allocations)',
+         ' Buffers handed to the XDR readers hold as many atoms as the reader writes on every path (the TRR stride buffer does not: known finding).'),
+ 'C03': ('; tensor value numbering of join / stack / slice / atom_slice / center_coordinates on model trajectories (sa/tensym.py)',
          " For join, stack, slice and atom_slice every array of the result is shown, element for element on model trajectories, to be the numpy concatenation / indexing of the operands' arrays; cached traces - where carried - belong to the frames of the result and to frames centred on the geometric centre."),
- "C04": ("; codec tables (bond-type floats, element pickle key)",
-         " The float codec of bond types is injective and decoded without rounding; elements are re-created on deepcopy / unpickle from a key that is unique in the element table."),
- "C05": ("; every Python dispatcher evaluated on a model trajectory over periodic x cell x opt (which kernel, which box orientation, which orthogonality flag)", ""),
- "C06": ("; reduction of the closed-form cubic / quartic roots modulo the relations of their radicals; guard facts for every partial function of the solvers",
+ 'C04': ('; codec tables (bond-type floats, element pickle key); Topology / Chain / Residue / Atom instantiated from their source and copy / subset / join / insert / delete evaluated on a model topology',
+         ' The float codec of bond types is injective and decoded without rounding; elements are re-created on deepcopy / unpickle from a key that is unique in the element table. copy, subset and join are shown on a model topology to produce exactly the structure the operation calls for, with every preserved field and no object shared with the input.'),
+ 'C05': ('; every Python dispatcher evaluated on a model trajectory over periodic x cell x opt (which kernel, which box orientation, which orthogonality flag); the numpy reference functions (opt=False) by value against the documented scheme',
+         ''),
+ 'C06': ('; reduction of the closed-form cubic / quartic roots modulo the relations of their radicals; guard facts for every partial function of the solvers; Trajectory.superpose evaluated as a whole on model trajectories with memory-sharing views (what reaches the kernel in each role, what self.xyz is afterwards, cached traces dropped)',
          " Every root expression returned by the Cardano / trigonometric / repeated-root cases of the cubic and by Ferrari's method for the quartic (16 paths) satisfies its polynomial modulo sqrt(u)^2 = u, cbrt(u)^3 = u, the triple-angle identity and the resolvent; every sqrt / acos / cube root / division is taken under conditions that keep its argument in the domain."),
- "C07": ("; dispatch by evaluation over periodic x cell x opt", ""),
- "C10": ("; algebraic value numbering of both loop bodies of compute_neighbors for generic atoms i, j against the definition built from the parameters; face tests and the y row of a z voxel under triclinic cells in the cell list",
-         " In triclinic cells the cell list visits the whole row of y voxels for a z voxel (a single periodic-copy offset loses pairs near half the box)."),
- "C11": ("; evaluation of make_molecules_whole / image_molecules through the class's own methods on a model trajectory (array identity: copy unless inplace; default bond list); no topology-derived memo on the trajectory", ""),
- "C12": ("; evaluation of the infix operand chains on model operands", ""),
- "C16": ("; tensor value numbering (sa/tensym.py) of the whole-array descriptors on a generic instance of every axis, compute_contacts evaluated on a model topology of unequal residues, RDF functions with histogram / distance calls summarised",
-         " Also decided by tensor evaluation: inertia tensor (both implementations), Q tensor and nematic order, dipole moments (sign included), density through cell lengths and angles, squareform, the chunk partition and weights of compute_rdf_t."),
- "C17": ("; tensor evaluation of the unitcell_vectors getter / setter on every data-dependent path; lengths and angles from the same object at every call site", ""),
- "C18": ("; freshness of the arrays handed out by read() over the class's own methods",
-         " read() never hands out (a view of) an array the reader keeps (scratch buffers, caches)."),
- "C19": ("; argument-only refusals before the first-write initialisation; reachability of the atom-count refusal", ""),
+ 'C07': ('; dispatch by evaluation over periodic x cell x opt; backbone torsion index builders evaluated on a two-chain model topology',
+         ''),
+ 'C08': ('; scratch stores and skipped residues decided on decoded path conditions; no function-local static in any kernel source or header',
+         ' No kernel keeps state between calls.'),
+ 'C10': ('; algebraic value numbering of both loop bodies of compute_neighbors for generic atoms i, j against the definition built from the parameters; face tests and the y row of a z voxel under triclinic cells in the cell list; candidate wrap and voxel sizes of the cell list by value numbering with decoded path conditions',
+         ' In triclinic cells the cell list visits the whole row of y voxels for a z voxel (a single periodic-copy offset loses pairs near half the box).'),
+ 'C11': ("; evaluation of make_molecules_whole / image_molecules through the class's own methods on a model trajectory (array identity: copy unless inplace; default bond list); no topology-derived memo on the trajectory; find_molecules evaluated on model bond graphs (connected components)",
+         ''),
+ 'C12': ('; evaluation of the infix operand chains on model operands; range / implicit-list / regex condition nodes by evaluation on model tokens; case-sensitivity of the grammar terminals',
+         ''),
+ 'C13': ('; shrake_rupley evaluated on a model trajectory (mode x selection x changed radii x falsy values), asa_frame by value numbering of one generic iteration with decoded path conditions (target skip, blocker test, point-in-sphere test, area formula)',
+         ''),
+ 'C14': ('; baker_hubbard / wernet_nilsson evaluated on an exact-rational threshold world; _get_bond_triplets on a model topology; hydrogen placement and sentinel-indexed reads with the path conditions in force',
+         ' The hydrogen-bond criteria are decided on worlds that sit on the thresholds (distance = cutoff, angle = cutoff, presence = freq, cone met with equality).'),
+ 'C15': ('; compute_dssp and the backbone index arrays evaluated on seven model residues',
+         ''),
+ 'C16': ('; tensor value numbering (sa/tensym.py) of the whole-array descriptors on a generic instance of every axis, compute_contacts evaluated on a model topology of unequal residues, RDF functions with histogram / distance calls summarised',
+         ' Also decided by tensor evaluation: inertia tensor (both implementations), Q tensor and nematic order, dipole moments (sign included), density through cell lengths and angles, squareform, the chunk partition and weights of compute_rdf_t.'),
+ 'C17': ('; tensor evaluation of the unitcell_vectors getter / setter on every data-dependent path; lengths and angles from the same object at every call site; box vectors and the LAMMPS box (writer, reader, their composition) by whole-function evaluation',
+         ''),
+ 'C18': ("; freshness of the arrays handed out by read() over the class's own methods; seek() as a path interpreter over (position, offset, length) for whence x sign of offset, helpers interpreted in place",
+         ' read() never hands out (a view of) an array the reader keeps (scratch buffers, caches).'),
+ 'C19': ('; argument-only refusals before the first-write initialisation; reachability of the atom-count refusal',
+         ''),
 }
